@@ -2083,9 +2083,12 @@ class Assign(Elemwise):
 
     def _remove_common_columns(self, other):
         if set(self.keys) & set(other.keys):
-            keys = set(self.keys)
-            operands = [[k, v] for k, v in zip(other.keys, other.vals) if k not in keys]
-            return [other.frame] + list(flatten(operands)) + self.operands[1:]
+            # a column assigned twice keeps the position of its first assignment
+            # and takes the value of the last one
+            new = dict(zip(self.keys, self.vals))
+            operands = [[k, new.pop(k, v)] for k, v in zip(other.keys, other.vals)]
+            operands.extend([k, v] for k, v in new.items())
+            return [other.frame] + list(flatten(operands))
         else:
             return other.operands + self.operands[1:]
 
